@@ -141,7 +141,7 @@ func (s *scte35) UpdateData() []byte {
 
 // SetHasPTS sets if this SCTE35 message has a PTS.
 func (s *scte35) SetHasPTS(flag bool) {
-	s.commandInfo.SetHasPTS(true)
+	s.commandInfo.SetHasPTS(flag)
 }
 
 // SetPTS sets the PTS time of the signal's command. There will be no PTS adjustment using this function.
